@@ -73,6 +73,14 @@ def sut(fn, *args, **kwargs):
         raise SutError(exc) from None
 
 
+_NOTES = Counter()
+
+
+def note(key, n=1):
+    """oracles report measured facts about a case (e.g. growth steps) into the evidence"""
+    _NOTES[key] += n
+
+
 def expect(cond, kind, detail=''):
     if not cond:
         raise Fail(kind, detail() if callable(detail) else detail)
@@ -134,13 +142,16 @@ class Collector:
         if not isinstance(key, str):
             key = json.dumps(key, sort_keys=True, default=str)
         hk = _h(key)
+        if hasattr(prop, 'measure'):
+            self.notes.update(prop.measure(case))
+        _NOTES.clear()
+        res = evaluate(prop, case)
+        self.notes.update(_NOTES)
+        _NOTES.clear()
         if prop.nontrivial(case):
             self.nontrivial.add(hk)
             if len(self.samples) < 400:
-                self.samples[hk] = case['input']
-        if hasattr(prop, 'measure'):
-            self.notes.update(prop.measure(case))
-        res = evaluate(prop, case)
+                self.samples[hk] = prop.sample_repr(case) if hasattr(prop, 'sample_repr') else case['input']
         if res is not None:
             self.record_failure(res[0], res[1], case, source)
 
